@@ -8,6 +8,7 @@
 #include <xalanc/XalanDOM/XalanDOMString.hpp>
 #include <xalanc/PlatformSupport/XalanBitmap.hpp>
 #include <xalanc/PlatformSupport/XalanDOMStringPool.hpp>
+#include <xalanc/PlatformSupport/DOMStringHelper.hpp>
 #include <map>
 #include <xalanc/XalanTransformer/XalanTransformer.hpp>
 #include <xercesc/util/PlatformUtils.hpp>
@@ -180,6 +181,67 @@ int main()
                 continue;
             }
             if (poisoned) { std::cout << "skip\n"; continue; }
+            if (t.size() >= 4 && t[0] == "cmp")
+            {
+                // stateless: the comparison family on freshly built strings
+                std::vector<XalanDOMChar> u1, u2;
+                size_t p1 = 0, c1 = 0, c2 = 0;
+                const std::string& cop = t[1];
+                const bool sub = cop == "comparesub";
+                if (!units(t[2], u1) || !units(sub ? t[5] : t[3], u2)) { std::cout << "bad\n"; continue; }
+                if (sub && (t.size() != 7 || !num(t[3], p1) || !num(t[4], c1) || !num(t[6], c2))) { std::cout << "bad\n"; continue; }
+                const XalanDOMChar nul0 = 0;
+                XalanDOMString a1(g_mm), a2(g_mm);
+                if (!u1.empty()) a1.append(&u1[0], u1.size());
+                std::vector<XalanDOMChar> z2(u2); z2.push_back(0);          // NUL-terminated buffer
+                size_t zl = 0; while (z2[zl] != 0) ++zl;                     // its length as the class sees it
+                if (zl != 0) a2.append(&z2[0], zl);
+                const std::u16string s1(u1.begin(), u1.end()), s2(z2.begin(), z2.begin() + zl);
+                bool cbad = false;
+                std::ostringstream o;
+                auto sg = [](long v) { return v < 0 ? -1 : v > 0 ? 1 : 0; };
+                if (cop == "compare") { const int v = a1.compare(&z2[0]); o << "r=" << sg(v) << " v=" << v; if (sg(v) != sg(s1.compare(s2))) cbad = true; }
+                else if (cop == "comparestr") { const int v = a1.compare(a2); o << "r=" << sg(v) << " v=" << v; if (sg(v) != sg(s1.compare(s2))) cbad = true; }
+                else if (sub)
+                {
+                    const int v = c2 == XalanDOMString::npos ? a1.compare(p1, c1, &z2[0]) : a1.compare(p1, c1, &z2[0], c2);
+                    const int rv = c2 == XalanDOMString::npos ? s1.compare(p1, c1, s2.c_str()) : s1.compare(p1, c1, s2.c_str(), c2);
+                    o << "r=" << sg(v);
+                    if (c2 != XalanDOMString::npos) o << " v=" << v;     // with npos only the sign is specified
+                    if (sg(v) != sg(rv)) cbad = true;
+                }
+                else if (cop == "equals")
+                {
+                    const bool v = XalanDOMString::equals(u1.empty() ? &nul0 : &u1[0], u1.size(), zl == 0 ? &nul0 : &z2[0], zl);
+                    o << "r=" << (v ? 1 : 0);
+                    if (v != (s1 == s2) || XalanDOMString::equals(a1, a2) != v || (a1 == a2) != v) cbad = true;
+                }
+                else if (cop == "eqi" || cop == "cmpi")
+                {
+                    std::u16string k1(s1), k2(s2);
+                    for (auto& ch : k1) if (ch >= u'a' && ch <= u'z') ch = char16_t(ch - 32);
+                    for (auto& ch : k2) if (ch >= u'a' && ch <= u'z') ch = char16_t(ch - 32);
+                    if (cop == "eqi")
+                    {
+                        const bool v = equalsIgnoreCaseASCII(a1, a2);
+                        o << "r=" << (v ? 1 : 0);
+                        if (v != (k1 == k2)) cbad = true;
+                    }
+                    else
+                    {
+                        const int v = compareIgnoreCaseASCII(a1.c_str(), a1.length(), a2.c_str(), a2.length());
+                        o << "r=" << sg(v) << " v=" << v;
+                        // documented contract: 0 exactly for strings equal up to ASCII case; shorter strings first
+                        if ((v == 0) != (k1 == k2)) cbad = true;
+                        if (s1.size() != s2.size() && sg(v) != (s1.size() < s2.size() ? -1 : 1)) cbad = true;
+                        if (s1.size() == s2.size() && sg(v) != sg(k1.compare(k2))) cbad = true;
+                    }
+                }
+                else { std::cout << "bad\n"; continue; }
+                if (cbad) { o << " !std"; poisoned = true; }
+                std::cout << o.str() << "\n";
+                continue;
+            }
             if (t.size() >= 3 && t[0] == "pool")
             {
                 size_t pi = 0, x = 0;
@@ -250,6 +312,30 @@ int main()
             {
                 p.x->append(u.empty() ? &nul : &u[0], u.size());
                 p.s.append(u.begin(), u.end());
+            }
+            else if (op == "appz" && t.size() == 4 && units(t[3], u))
+            {
+                u.push_back(0);
+                p.x->append(&u[0]);
+                p.s.append(std::u16string(reinterpret_cast<const char16_t*>(&u[0])));
+            }
+            else if (op == "assignz" && t.size() == 4 && units(t[3], u))
+            {
+                u.push_back(0);
+                p.x->assign(&u[0]);
+                p.s.assign(std::u16string(reinterpret_cast<const char16_t*>(&u[0])));
+            }
+            else if (op == "insz" && t.size() == 5 && num(t[3], a) && units(t[4], u))
+            {
+                u.push_back(0);
+                p.x->insert(a, &u[0]);
+                p.s.insert(a, std::u16string(reinterpret_cast<const char16_t*>(&u[0])));
+            }
+            else if (op == "assignp" && t.size() == 5 && units(t[3], u) && num(t[4], a) && a <= u.size())
+            {
+                u.push_back(0);
+                p.x->assign(&u[0], a);
+                p.s.assign(reinterpret_cast<const char16_t*>(&u[0]), a);
             }
             else if (op == "appstr" && t.size() == 4 && num(t[3], a) && a < ss.size())
             {
